@@ -208,6 +208,7 @@ class Region:
 class Root:
     def __init__(self, rid, arr, label, kind):
         self.id, self.size, self.label, self.kind = rid, arr.size, label, kind
+        self.arr = arr
         self.shape = arr.shape
         self.written = np.zeros(arr.size, dtype=bool) if kind == 'empty' else None
 
@@ -220,7 +221,7 @@ class Runtime:
         self.reset(**kw)
 
     def reset(self, mode='seq', order=None, nthreads=16, max_threads=None, assign='chunk', scheduler=None,
-              keep_footprints=False, contended=None):
+              keep_footprints=False, contended=None, by_thread=False):
         """(re)initialise; twins built against this object stay valid"""
         self.mode, self.order, self.nthreads = mode, order, nthreads
         self.max_threads = max_threads or 4096
@@ -231,6 +232,9 @@ class Runtime:
         self.tls = threading.local()
         self.in_region = False
         self.keep_footprints = keep_footprints
+        # by_thread: the unit of concurrency is the (virtual) numba thread, not the prange iteration - iterations that run on
+        # the same thread are sequential, so sharing e.g. a per-thread accumulator row between them is no conflict
+        self.by_thread = by_thread
         self.contended = contended   # {region index: {root id: set(ids)}} for static reduction in sched mode
         # module-level arrays seen by twins stay registered (with fresh ids) across resets
         if not hasattr(self, 'globals_'):
@@ -294,6 +298,8 @@ class Runtime:
             if self.contended is None or (c is not None and _hits(c, ids)):
                 self.scheduler.point(t, (root, kind))
             return
+        if self.by_thread:
+            t = self.thread_of(t, reg.n)
         reg.roots.append(root); reg.tasks.append(t); reg.kinds.append(kind); reg.ids.append(ids)
 
     # ---- virtual numba thread ids
@@ -433,7 +439,7 @@ class Scheduler:
     point the next thread is `enabled[choice]` with enabled in canonical order (running thread first if still
     enabled, then ascending ids).  Choices come from `prefix`, then 0."""
 
-    def __init__(self, prefix=(), horizon=200000, stuck_after=20.0):
+    def __init__(self, prefix=(), horizon=200000, stuck_after=90.0):
         self.stuck_after = stuck_after
         self.prefix = list(prefix)
         self.points = []
@@ -638,11 +644,20 @@ class _Lower(ast.NodeTransformer):
         body = [_continue_to_return(st_) for st_ in loop.body]
         if reductions:
             body = [ast.Nonlocal(names=sorted(reductions))] + body
+        if len(loop.iter.args) == 1:
+            n_expr = loop.iter.args[0]
+        elif len(loop.iter.args) == 2:
+            # prange(start, stop): iterate over range(stop - start) and shift the index first thing in the body
+            start, stop = loop.iter.args
+            n_expr = ast.BinOp(left=stop, op=ast.Sub(), right=start)
+            shift = ast.Assign(targets=[ast.Name(id=var, ctx=ast.Store())],
+                               value=ast.BinOp(left=ast.Name(id=var, ctx=ast.Load()), op=ast.Add(), right=start), lineno=loop.lineno)
+            k0 = 1 if (body and isinstance(body[0], ast.Nonlocal)) else 0
+            body = body[:k0] + [shift] + body[k0:]
+        else:
+            raise TwinError('prange with a step is not supported')
         fn = ast.FunctionDef(name=name, args=ast.arguments(posonlyargs=[], args=[ast.arg(arg=var)], kwonlyargs=[], kw_defaults=[], defaults=[]),
                              body=body, decorator_list=[], returns=None, type_comment=None, type_params=[])
-        n_expr = loop.iter.args[0] if len(loop.iter.args) == 1 else None
-        if n_expr is None:
-            raise TwinError('prange with start/step not supported')
         call = ast.Expr(ast.Call(func=ast.Attribute(value=ast.Name(id='__rt', ctx=ast.Load()), attr='parallel_for', ctx=ast.Load()),
                                  args=[n_expr, ast.Name(id=name, ctx=ast.Load()), ast.Constant(value=f'{self.fname}:{loop.lineno}')], keywords=[]))
         return [ast.copy_location(fn, loop), ast.copy_location(call, loop)]
@@ -937,7 +952,7 @@ def explore_lines(calls, file_filter, bound, modules=(), max_exec=None):
     def run_one(prefix):
         for st in states:
             st.restore()
-        sch = Scheduler(prefix)
+        sch = Scheduler(prefix, stuck_after=15.0)
         rt = Runtime(mode='sched', scheduler=sch)
         results = [None] * len(calls)
 
